@@ -255,7 +255,12 @@ fn cfg(p: Profile) -> BoxedStrategy<TowerCfg> {
     match p {
         Profile::Expiry => {
             let v = || prop_oneof![Just(0u32), Just(1), Just(2), Just(3), Just(5), Just(10), Just(50)];
-            (v(), v(), v()).prop_map(|(slots, duration, grace)| TowerCfg { slots, duration, grace }).boxed()
+            // a slots setting that makes the first renewal overflow (the documented "maximum slots reached" refusal)
+            let slots = prop_oneof![12 => v(), 1 => Just(1u32 << 31), 1 => Just(u32::MAX)];
+            // an operator's "never expires": the neighbourhood of u32::MAX
+            let duration = prop_oneof![24 => v(), 1 => Just(u32::MAX), 1 => Just(u32::MAX - 107)];
+            let grace = prop_oneof![30 => v(), 1 => Just(u32::MAX)];
+            (slots, duration, grace).prop_map(|(slots, duration, grace)| TowerCfg { slots, duration, grace }).boxed()
         }
         Profile::Slots => (prop_oneof![Just(1u32), Just(2), Just(3), Just(5), Just(20)], Just(2000u32), Just(6u32))
             .prop_map(|(slots, duration, grace)| TowerCfg { slots, duration, grace })
